@@ -49,6 +49,7 @@ struct WorldCfg {
     bool judge_hooks = false;  // C14: routing of every request
     bool log_mismatch = false; // sched: mismatches go to the trace instead of stopping the run
     bool fault_mode = false;   // afail: the armed step may fail cleanly
+    bool shared_world = false;   // sched: hooks are installed before the tasks start and the ledger is shared by all tasks
     bool judge_followup = false; // C17-C19: core edits on trees that went through a Utils call are judged too
     bool judge_independence = false; // C11: a tree not involved in a call must not change
     int hookcfg = HK_DEFAULT;
@@ -96,6 +97,8 @@ class World {
     bool step_is_judged() const;
     bool nt_flag = false;       // the current step reached a non-trivial case (evidence: distinct_nontrivial)
     void mark_nontrivial() { stats.nontrivial++; nt_flag = true; }
+    int force_judged_step = -1;   // afail: the faulted call is judged although the rest of the history is stage-setting
+    int crash_judged_from = 1 << 30;  // afail: a crash at or after this step counts (library must remain usable)
     volatile int *live_judged = nullptr;  // progress word for crash attribution (1 while a judged call may be running)
 
     // --- helpers used by op handlers
